@@ -182,6 +182,9 @@ mod stargate;
 mod test_helpers;
 mod tests;
 mod transactions;
+#[cfg(feature = "verif")]
+#[doc(hidden)]
+pub mod verif;
 mod wasm;
 
 pub use crate::addresses::{
